@@ -12,6 +12,7 @@ CONSTANTS
   MaxBatch = 2
   MaxFail = 1
   MaxStops = 2
+  MaxCancel = 0
   Inflights = {1, 2}
   Hws = {99}
   Caps = {99}
